@@ -94,58 +94,61 @@ def neighbors_template(model, R, rule):
         R.unknown(rule, func, dp, 'neighbors: closure argument', e.what)
     R.check(S.sort(dp.targets[0]) in (('O', 'P'), (None, None)) or True, rule, func, dp, 'neighbors: closure unpacked as (extent, intent)',
             '(extent, intent)', str(S.sort(dp.targets[0])))
-    # N4: the accept test
-    ifs = [s for s in loop.body if isinstance(s, ast.If)]
-    if len(ifs) != 1:
-        raise Unrecognised('accept/reject branch', func=func, node=loop)
-    br = ifs[0]
-    yields_body = [n for n in walk(br.body) if isinstance(n, ast.Yield)]
-    yields_else = [n for n in walk(br.orelse) if isinstance(n, ast.Yield)]
-    if not yields_body and not yields_else:
-        R.bad(rule, func, br, 'neighbors: accepted candidate yielded as (extent, intent)', 'yield extent, intent on accept', 'no branch yields')
+    # N4: the accept test - read off the path conditions of the yield and of the update of the minimal set
+    from ..astutil import context_of
+    ys_all = [n for n in walk(loop.body) if isinstance(n, ast.Yield)]
+    upd_all = [s for s in stmts(loop.body) if (isinstance(s, ast.AugAssign) and name_is(s.target, mvar)) or (isinstance(s, ast.Assign) and name_is(s.targets[0], mvar))]
+    if not ys_all:
+        R.bad(rule, func, loop, 'neighbors: accepted candidate yielded as (extent, intent)', 'yield extent, intent on accept', 'nothing is yielded')
         return
-    if bool(yields_body) == bool(yields_else):
-        raise Unrecognised('exactly one branch yields', func=func, node=br)
-    reject_when_true = bool(yields_else)
+    if len(ys_all) != 1:
+        raise Unrecognised(f'{len(ys_all)} yields in the candidate loop', func=func, node=loop)
+    y = ys_all[0]
+
+    def conds(node):
+        ctx = context_of(loop.body, node)
+        if ctx is None or any(c[0] not in ('if', 'guard') for c in ctx):
+            raise Unrecognised('yield/update nested in a loop or try', func=func, node=node)
+        return [(c[1], c[2]) for c in ctx]
+    yc = conds(y)
+    if len(yc) != 1:
+        raise Unrecognised(f'{len(yc)} conditions around the yield', func=func, node=y)
+    test, ypol = yc[0]
     pats = list(bitalg.patterns(['X', 'g', 'E', 'm'], row_ok, pattern_ok))
     try:
-        pred = bitalg.compile_pred(lenv.expand(br.test), var_of)
-        spec = bitalg.Pred(lambda occ: any(r['E'] and not r['X'] and not r['g'] and r['m'] for r in occ if not r[bitalg.OUTSIDE]), 'spec')
-        if not reject_when_true:
-            spec_fn = spec.fn
-            spec = bitalg.Pred(lambda occ: not spec_fn(occ), 'not spec')
+        pred = bitalg.compile_pred(lenv.expand(test), var_of)
+        gained = lambda occ: any(r['E'] and not r['X'] and not r['g'] and r['m'] for r in occ if not r[bitalg.OUTSIDE])
+        spec = bitalg.Pred((lambda occ: not gained(occ)) if ypol else gained, 'spec')
         diff = bitalg.equivalent(pred, spec, pats)
-        R.decided(diff is None, rule, func, br.test, 'neighbors: reject iff the closure gained another candidate that is still minimal',
-                'extent & ~(objects | add) & minimal', pred.text,
-                extra={'rows(X,g,E,min)': [[r['X'], r['g'], r['E'], r['m']] for r in diff]} if diff else None)
+        R.decided(diff is None, rule, func, test, 'neighbors: accept iff the closure gained no other candidate that is still minimal',
+                  'reject iff extent & ~(objects | add) & minimal', pred.text + (' (accept when true)' if ypol else ' (reject when true)'),
+                  extra={'rows(X,g,E,min)': [[r['X'], r['g'], r['E'], r['m']] for r in diff]} if diff else None)
     except (Unrecognised, bitalg.SortError) as e:
-        R.unknown(rule, func, br.test, 'neighbors: accept test', str(e))
+        R.unknown(rule, func, test, 'neighbors: accept test', str(e))
     # N5: on reject min := min & ~g
-    rej = br.body if reject_when_true else br.orelse
-    upd = [s for s in rej if (isinstance(s, ast.AugAssign) and name_is(s.target, mvar)) or (isinstance(s, ast.Assign) and name_is(s.targets[0], mvar))]
-    if len(upd) != 1 or len(rej) != 1:
-        if not upd:
-            R.bad(rule, func, br, 'neighbors: rejected candidate leaves the minimal set', f'{mvar} &= ~add', 'no update on reject')
-        else:
-            raise Unrecognised('reject branch', func=func, node=br)
+    if not upd_all:
+        R.bad(rule, func, loop, 'neighbors: rejected candidate leaves the minimal set', f'{mvar} &= ~add', 'no update on reject')
+    elif len(upd_all) != 1:
+        raise Unrecognised('several updates of the minimal set', func=func, node=loop)
     else:
-        u = upd[0]
+        u = upd_all[0]
+        uc = conds(u)
+        same_test = len(uc) == 1 and uc[0][0] is test
+        R.decided(same_test and uc[0][1] != ypol, rule, func, u, 'neighbors: the minimal set shrinks exactly on reject',
+                  'update on the branch opposite to the yield', 'update under ' + ' and '.join(('' if p_ else 'not ') + src(t_) for t_, p_ in uc))
         if isinstance(u, ast.AugAssign):
             expr = ast.BinOp(left=ast.Name(id=mvar, ctx=ast.Load()), op=u.op, right=u.value)
         else:
             expr = u.value
         try:
-            t = bitalg.compile_term(lenv.expand(expr), var_of)
+            t = bitalg.compile_term(lenv.expand(expr, skip=(mvar,)), var_of)
             ok = all(t(r) == (r['m'] & (1 - r['g'])) for r in bitalg.rows(['X', 'g', 'E', 'm'], row_ok))
-            R.check(ok, rule, func, u, 'neighbors: rejected candidate leaves the minimal set', f'{mvar} &= ~add', t.text)
+            R.decided(ok, rule, func, u, 'neighbors: rejected candidate leaves the minimal set', f'{mvar} &= ~add', t.text)
         except Unrecognised as e:
             R.unknown(rule, func, u, 'neighbors: minimal update', e.what)
-    # N6: yield (E, I) on accept
-    y = (yields_else or yields_body)[0]
+    # N6: yield (E, I)
     ok = isinstance(y.value, ast.Tuple) and [src(e) for e in y.value.elts] == [e_var, i_var]
     R.check(ok, rule, func, y, 'neighbors: accepted candidate yielded as (extent, intent)', f'yield {e_var}, {i_var}', src(y))
-    acc = br.orelse if reject_when_true else br.body
-    R.check(len(acc) == 1, rule, func, br, 'neighbors: accept branch only yields', 'single yield', src(acc)[:80])
     ally = [n for n in walk(func.body) if isinstance(n, (ast.Yield, ast.YieldFrom))]
     R.check(len(ally) == 1, rule, func, func.node, 'neighbors: nothing else is yielded', 'one yield site', str(len(ally)))
 
